@@ -24,7 +24,7 @@ RULE = ("case = DCOP + algorithm + parameters + schedule + seed; non-trivial = >
         "changed value; distinct by sha1(case)")
 ASSUMPTIONS = ["costs are ints or dyadic floats (exact sums)", "stop_cycle 3..10 bounds each run"]
 BUDGET = {"quick": {"workers": 8, "examples": 450, "seconds": 45},
-          "thorough": {"workers": 16, "examples": 2500, "seconds": 600}}
+          "thorough": {"workers": 16, "examples": 20000, "seconds": 600}}
 
 
 @st.composite
